@@ -28,6 +28,7 @@ NOT_APPLICABLE = {p: 'check under construction in this session; not claimed unti
 
 PROPS = {
     'C01': dict(
+        claimed=True,
         level='exploration',
         level_text="Generated histories of persisted publishes under connection, connect and Persistence faults against the real "
                    "client and a conforming broker model; invariants over the totally ordered event log after every step plus a "
@@ -46,6 +47,7 @@ PROPS = {
         thorough=dict(engines=[rapid('^TestC01', 40000, shards=14, steps=70, timeout=1500)]),
     ),
     'C08': dict(
+        claimed=True,
         level='exploration',
         level_text="Generated histories of concurrent requests and write faults against the real client; every byte the client "
                    "writes is parsed by an independent strict decoder and matched to an issued request. Sampling, not proof: "
